@@ -142,12 +142,11 @@ def worker(args):
                     res["slow"] = res.get("slow", 0) + 1
                     st0 = eng.nlines()
                     eng.send("stop")
-                    r2 = eng.wait_for(lambda l: l.startswith("bestmove"), 0 if True else st0, 60)
-                    with eng.cv:
-                        allb = [t for _, t in eng.lines if t.startswith("bestmove")]
-                    best = allb[-1] if allb else None
+                    r2 = eng.wait_for(lambda l: l.startswith("bestmove"), st0, 60)
+                    best = r2[1] if r2 else None
                     if best is None:
-                        res["viol"].append(("no-bestmove", script))
+                        res["viol"].append(("search-does-not-stop", "no bestmove within 60 s of 'stop' | " + script))
+                        eng.close("kill")
                         raise StopIteration
                 v, nc = judge_search(orc, ref, fen, ls, best, completed, script)
                 res["viol"] += v
